@@ -118,7 +118,10 @@ func NewTrackerWithConfig(inner Prefilter, config TrackerConfig) *Tracker {
 // if the prefilter has been disabled due to low effectiveness.
 func (t *Tracker) Find(haystack []byte, start int) int {
 	if !t.active {
-		return -1
+		// Disabled for low effectiveness: stop accounting, but keep answering.
+		// -1 means "no candidate at or after start", and a caller acting on it
+		// would skip real matches.
+		return t.inner.Find(haystack, start)
 	}
 
 	pos := t.inner.Find(haystack, start)
